@@ -40,6 +40,18 @@ def tlc(*a, **k):
     return r
 
 
+_T = [None]
+
+
+def lap(ctx, name):
+    now = vloop._REAL_TIME()
+    if _T[0] is not None:
+        ctx.parts.setdefault("wall_by_part", {})[name] = round(now - _T[0], 1)
+        if os.environ.get("G02_TIMING"):
+            print("  [%s] %.1fs" % (name, now - _T[0]))
+    _T[0] = now
+
+
 def need_coverage(r, actions, what):
     missing = [a for a in actions if r.coverage.get(a, (0, 0))[1] == 0]
     if missing:
@@ -199,24 +211,34 @@ def world_info(worlds, consts, n, w=None):
             "consts": consts, "n": n}
 
 
-def replay_world_graphs(ctx, rng, tag, n, consts, maxlen, modes, nworlds, max_ops=None):
+def prep_world_graphs(rng, tag, n, consts, maxlen, modes, nworlds):
+    """main thread: generate the worlds (seeded); returns a job for a pool thread"""
+    worlds = [random_world(rng, n, maxlen, rt_max=consts.get("MaxInit", 8) + 1) for _ in range(nworlds)]
+
+    def job():
+        tmp = scratch_dir("g02-")
+        try:
+            mod, cfg = write_world_module(tmp, "G02w", consts, worlds, modes)
+            dot = os.path.join(tmp, "g.dot")
+            r = tlc(mod, cfg, cwd=tmp, java_opts=LIB, dump=dot, deadlock_off=False, workers=4)
+            if not r.ok:
+                raise MachineryError("DhtCrawl worlds %s: TLC reports %s on the specification itself" % (tag, r.violated))
+            return r, parse_dot(dot)
+        finally:
+            shutil.rmtree(tmp, ignore_errors=True)
+    return dict(tag=tag, n=n, consts=consts, worlds=worlds, job=job)
+
+
+def replay_world_graphs(ctx, prep, max_ops=None):
     """generated worlds: TLC explores every interleaving of answers, time-outs and drains; every edge of the graph is
     executed on the real code (or a seeded sample of max_ops operations)"""
-    worlds = [random_world(rng, n, maxlen, rt_max=consts.get("MaxInit", 8) + 1) for _ in range(nworlds)]
-    tmp = scratch_dir("g02-")
-    try:
-        mod, cfg = write_world_module(tmp, "G02w", consts, worlds, modes)
-        dot = os.path.join(tmp, "g.dot")
-        r = tlc(mod, cfg, cwd=tmp, java_opts=LIB, dump=dot, deadlock_off=False)
-        if not r.ok:
-            raise MachineryError("DhtCrawl worlds %s: TLC reports %s on the specification itself" % (tag, r.violated))
-        g = parse_dot(dot)
-    finally:
-        shutil.rmtree(tmp, ignore_errors=True)
+    tag, n, consts, worlds = prep["tag"], prep["n"], prep["consts"], prep["worlds"]
+    r, g = prep["future"].result()
     need_coverage(r, CRAWL_ACTIONS, "DhtCrawl worlds " + tag)
     ctx.add_tlc(tag, r)
     world = puppets(n)
     nwalks = nops = 0
+    nv0 = len(ctx.violations)
     covered = set()
     for init, walk in edge_cover(g, max_ops=max_ops, seed=ctx.seed, skip_self_loops=True):
         steps = [(g.edges[ei][1], g.edges[ei][2], g.states[g.edges[ei][3]]) for ei in walk]
@@ -228,36 +250,45 @@ def replay_world_graphs(ctx, rng, tag, n, consts, maxlen, modes, nworlds, max_op
         ctx.nontrivial((tag, tuple(labels)))
         if nwalks == 1 and len(ctx.cov["samples"]) < 3:
             ctx.sample({"world": info["worlds"][0], "actions": labels})
-        if ctx.violations:
+        if len(ctx.violations) > nv0:
             break
     ctx.evaluated(nops)
     ctx.traces(nwalks)
     real_edges = sum(1 for e in g.edges if e[0] != e[3])
-    st = {"worlds": nworlds, "n": n, "consts": consts, "states": len(g.states), "edges": real_edges, "walks": nwalks,
+    st = {"worlds": len(worlds), "n": n, "consts": consts, "states": len(g.states), "edges": real_edges, "walks": nwalks,
           "real_operations": nops, "edges_covered": len(covered), "complete_edge_cover": len(covered) == real_edges,
           "tlc_wall": round(r.wall, 2)}
     ctx.note("crawl_replay_" + tag, st)
     return st
 
 
-def replay_simulated(ctx, rng, tag, n, consts, maxlen, num, depth, nworlds=3):
-    """-simulate behaviours of larger worlds (the shipped constants) executed on the real code"""
+def prep_simulated(rng, seed, tag, n, consts, maxlen, num, depth, nworlds=3):
     worlds = [random_world(rng, n, maxlen, nvals=12, alts=2, rt_max=min(8, n), nrts=3) for _ in range(nworlds)]
-    tmp = scratch_dir("g02s-")
-    try:
-        mod, cfg = write_world_module(tmp, "G02s", consts, worlds, ["values", "nodes"])
-        sim = os.path.join(tmp, "sim")
-        r = tlc(mod, cfg, cwd=tmp, java_opts=LIB, simulate="file=%s,num=%d" % (sim, num), depth=depth, seed=ctx.seed,
-                workers=1, coverage=False)
-        if not r.ok:
-            raise MachineryError("DhtCrawl simulate %s: TLC reports %s on the specification itself" % (tag, r.violated))
-        files = sorted(f for f in os.listdir(tmp) if f.startswith("sim"))
-        behaviours = [parse_simulate_file(os.path.join(tmp, f)) for f in files]
-    finally:
-        shutil.rmtree(tmp, ignore_errors=True)
+
+    def job():
+        tmp = scratch_dir("g02s-")
+        try:
+            mod, cfg = write_world_module(tmp, "G02s", consts, worlds, ["values", "nodes"])
+            sim = os.path.join(tmp, "sim")
+            r = tlc(mod, cfg, cwd=tmp, java_opts=LIB, simulate="file=%s,num=%d" % (sim, num), depth=depth, seed=seed,
+                    workers=1, coverage=False)
+            if not r.ok:
+                raise MachineryError("DhtCrawl simulate %s: TLC reports %s on the specification itself" % (tag, r.violated))
+            files = sorted(f for f in os.listdir(tmp) if f.startswith("sim"))
+            return r, [parse_simulate_file(os.path.join(tmp, f)) for f in files]
+        finally:
+            shutil.rmtree(tmp, ignore_errors=True)
+    return dict(tag=tag, n=n, consts=consts, worlds=worlds, job=job)
+
+
+def replay_simulated(ctx, prep):
+    """-simulate behaviours of larger worlds (the shipped constants) executed on the real code"""
+    tag, n, consts, worlds = prep["tag"], prep["n"], prep["consts"], prep["worlds"]
+    r, behaviours = prep["future"].result()
     world = puppets(n)
     nops = finished = 0
     longest = most = budget_hit = 0
+    nv0 = len(ctx.violations)
     for b in behaviours:
         most = max(most, len(b[-1][2]["launched"]))
         budget_hit += 1 if len(b[-1][2]["launched"]) >= consts.get("MaxReq", 24) else 0
@@ -270,13 +301,12 @@ def replay_simulated(ctx, rng, tag, n, consts, maxlen, num, depth, nworlds=3):
         longest = max(longest, k)
         finished += 1 if b[-1][2]["phase"] == "done" else 0
         ctx.nontrivial((tag, tuple(labels)))
-        if ctx.violations:
+        if len(ctx.violations) > nv0:
             break
     ctx.evaluated(nops)
     ctx.traces(len(behaviours))
-    st = {"behaviours": len(behaviours), "finished": finished, "real_operations": nops, "longest": longest, "most_contacted": most,
-          "budget_exhausted": budget_hit, "n": n,
-          "consts": consts, "tlc_wall": round(r.wall, 2)}
+    st = {"behaviours": len(behaviours), "finished": finished, "real_operations": nops, "longest": longest,
+          "most_contacted": most, "budget_exhausted": budget_hit, "n": n, "consts": consts, "tlc_wall": round(r.wall, 2)}
     ctx.note("crawl_simulate_" + tag, st)
     return st
 
@@ -358,21 +388,29 @@ def replay_node_steps(ctx, consts, unit, steps, info):
     return nops, labels
 
 
-def replay_node_graph(ctx, module, cfgname, unit, tag, max_ops=None, expect=NODE_ACTIONS):
+def prep_node_graph(module, cfgname):
+    def job():
+        tmp = scratch_dir("g02n-")
+        try:
+            dot = os.path.join(tmp, "g.dot")
+            r = tlc(module, cfgname, dump=dot, workers=4)
+            if not r.ok:
+                raise MachineryError("%s: TLC reports %s on the specification itself" % (cfgname, r.violated))
+            return r, parse_dot(dot)
+        finally:
+            shutil.rmtree(tmp, ignore_errors=True)
+    return dict(cfg=cfgname, job=job)
+
+
+def replay_node_graph(ctx, prep, unit, tag, max_ops=None, expect=NODE_ACTIONS):
+    cfgname = prep["cfg"]
     consts = cfg_constants(cfgname)
-    tmp = scratch_dir("g02n-")
-    try:
-        dot = os.path.join(tmp, "g.dot")
-        r = tlc(module, cfgname, dump=dot)
-        if not r.ok:
-            raise MachineryError("%s: TLC reports %s on the specification itself" % (cfgname, r.violated))
-        g = parse_dot(dot)
-    finally:
-        shutil.rmtree(tmp, ignore_errors=True)
+    r, g = prep["future"].result()
     need_coverage(r, expect, cfgname)
     ctx.add_tlc(tag, r)
     info = {"part": "node-graph", "cfg": cfgname, "seconds_per_tick": unit}
     nwalks = nops = 0
+    nv0 = len(ctx.violations)
     covered = set()
     for init, walk in edge_cover(g, max_ops=max_ops, seed=ctx.seed):
         steps = [(g.edges[ei][1], g.edges[ei][2], g.states[g.edges[ei][3]]) for ei in walk]
@@ -383,7 +421,7 @@ def replay_node_graph(ctx, module, cfgname, unit, tag, max_ops=None, expect=NODE
         ctx.nontrivial((tag, tuple(labels)))
         if nwalks == 3 and len(ctx.cov["samples"]) < 5:
             ctx.sample({"cfg": cfgname, "actions": labels})
-        if ctx.violations:
+        if len(ctx.violations) > nv0:
             break
     ctx.evaluated(nops)
     ctx.traces(nwalks)
@@ -393,21 +431,29 @@ def replay_node_graph(ctx, module, cfgname, unit, tag, max_ops=None, expect=NODE
     return st
 
 
-def replay_node_sim(ctx, module, cfgname, unit, tag, num, depth):
+def prep_node_sim(module, cfgname, seed, num, depth):
+    def job():
+        tmp = scratch_dir("g02m-")
+        try:
+            sim = os.path.join(tmp, "sim")
+            r = tlc(module, cfgname, simulate="file=%s,num=%d" % (sim, num), depth=depth, seed=seed, workers=1,
+                    coverage=False)
+            if not r.ok:
+                raise MachineryError("%s (simulate): TLC reports %s on the specification itself" % (cfgname, r.violated))
+            return r, [parse_simulate_file(os.path.join(tmp, f)) for f in sorted(os.listdir(tmp)) if f.startswith("sim")]
+        finally:
+            shutil.rmtree(tmp, ignore_errors=True)
+    return dict(cfg=cfgname, job=job)
+
+
+def replay_node_sim(ctx, prep, unit, tag):
+    cfgname = prep["cfg"]
     consts = cfg_constants(cfgname)
-    tmp = scratch_dir("g02m-")
-    try:
-        sim = os.path.join(tmp, "sim")
-        r = tlc(module, cfgname, simulate="file=%s,num=%d" % (sim, num), depth=depth, seed=ctx.seed, workers=1,
-                coverage=False)
-        if not r.ok:
-            raise MachineryError("%s (simulate): TLC reports %s on the specification itself" % (cfgname, r.violated))
-        behaviours = [parse_simulate_file(os.path.join(tmp, f)) for f in sorted(os.listdir(tmp)) if f.startswith("sim")]
-    finally:
-        shutil.rmtree(tmp, ignore_errors=True)
+    r, behaviours = prep["future"].result()
     info = {"part": "node-simulate", "cfg": cfgname, "seconds_per_tick": unit}
     nops = 0
     seen = {}
+    nv0 = len(ctx.violations)
     for b in behaviours:
         steps = list(b[1:])
         k, labels = replay_node_steps(ctx, consts, unit, steps, info)
@@ -416,7 +462,7 @@ def replay_node_sim(ctx, module, cfgname, unit, tag, num, depth):
             seen[st["last"]] = seen.get(st["last"], 0) + 1
             seen["status:" + st["status"]] = seen.get("status:" + st["status"], 0) + 1
         ctx.nontrivial((tag, tuple(labels)))
-        if ctx.violations:
+        if len(ctx.violations) > nv0:
             break
     ctx.evaluated(nops)
     ctx.traces(len(behaviours))
@@ -429,17 +475,23 @@ def replay_node_sim(ctx, module, cfgname, unit, tag, num, depth):
 # ---------------------------------------------------------------------------------------------------------------------
 # find over several routing tables (DhtFind.tla): every TLC state is one real call
 # ---------------------------------------------------------------------------------------------------------------------
-def replay_find(ctx):
+def prep_find():
+    def job():
+        tmp = scratch_dir("g02f-")
+        try:
+            dot = os.path.join(tmp, "g.dot")
+            r = tlc("DhtFind.tla", "DhtFind_mc.cfg", dump=dot, workers=1)
+            if not r.ok:
+                raise MachineryError("DhtFind_mc: TLC reports %s on the specification itself" % r.violated)
+            return r, parse_dot(dot)
+        finally:
+            shutil.rmtree(tmp, ignore_errors=True)
+    return dict(job=job)
+
+
+def replay_find(ctx, prep):
     from ..g02_world import FindWorld
-    tmp = scratch_dir("g02f-")
-    try:
-        dot = os.path.join(tmp, "g.dot")
-        r = tlc("DhtFind.tla", "DhtFind_mc.cfg", dump=dot)
-        if not r.ok:
-            raise MachineryError("DhtFind_mc: TLC reports %s on the specification itself" % r.violated)
-        g = parse_dot(dot)
-    finally:
-        shutil.rmtree(tmp, ignore_errors=True)
+    r, g = prep["future"].result()
     need_coverage(r, ["Return"], "DhtFind_mc")
     ctx.add_tlc("find", r)
     world = FindWorld()
@@ -463,18 +515,274 @@ def replay_find(ctx):
     return n
 
 
+# ---------------------------------------------------------------------------------------------------------------------
+# binding T: recorded executions of real DHT networks validated by TLC
+# ---------------------------------------------------------------------------------------------------------------------
+def tlc_traces(module, cfg, traces):
+    tmp = scratch_dir("g02t-")
+    try:
+        path = os.path.join(tmp, "traces.json")
+        with open(path, "w", encoding="utf-8") as f:
+            json.dump(traces, f)
+        return tlc(module, cfg, env={"TRACE_FILE": path}, coverage=False, workers=1, java_opts=("-Xss64m",))
+    finally:
+        shutil.rmtree(tmp, ignore_errors=True)
+
+
+def validate_traces(ctx, what, module, cfg, traces, tag, expect_reject=False):
+    """-> accepted?  (fast path: one TLC run for the whole batch; on rejection the error trace names trace and event)"""
+    if not traces:
+        raise MachineryError("no %s traces recorded" % what)
+    r = tlc_traces(module, cfg, traces)
+    nev = sum(len(t["events"]) for t in traces)
+    complete = r.ok and r.distinct == nev + len(traces)
+    if expect_reject:
+        return not complete
+    ctx.add_tlc(tag, r)
+    if complete:
+        ctx.traces(len(traces))
+        ctx.evaluated(nev)
+        for t in traces:
+            ctx.nontrivial((tag, json.dumps(t["events"][:40], sort_keys=True)))
+        return True
+    if r.ok:
+        raise MachineryError("%s traces: TLC accepted but visited %d states for %d events + %d traces" % (
+            what, r.distinct, nev, len(traces)))
+    last = r.error_trace[-1][1] if r.error_trace else {}
+    tid, l = last.get("tid"), last.get("l")
+    bad = traces[tid - 1] if isinstance(tid, int) and 1 <= tid <= len(traces) else None
+    ev = bad["events"][l - 1] if bad and isinstance(l, int) and 1 <= l <= len(bad["events"]) else None
+    prefix = bad["events"][:l] if bad and isinstance(l, int) else None
+    ctx.violation("%s-trace:%s:%s" % (what, r.violated, (ev or {}).get("a", "?")),
+                  "recorded %s history is not a behaviour of the specification (%s) at event %s: %s" % (
+                      what, r.violated, l, json.dumps(ev)[:600]),
+                  {"part": what + "-trace", "violated": r.violated, "event_index": l, "event": ev, "prefix": prefix,
+                   "spec_state_before": {k: v for k, v in last.items() if k not in ("tid",)}})
+    return False
+
+
+def network_part(ctx, seed, tag, n, **kw):
+    from ..g02_net import NetRun
+    t = vloop._REAL_TIME()
+    net = NetRun(n, seed, **kw).run()
+    wall = vloop._REAL_TIME() - t
+    for where, exc in net.escapes[:5]:
+        ctx.violation("net:escape:%s" % where.split(" ")[0], "exception escapes the real code (%s): %s" % (where, exc),
+                      {"part": "network", "seed": seed, "n": n, "where": where, "exception": exc})
+    crawls, pairs = net.crawl_traces(), net.pair_traces()
+    ok1 = validate_traces(ctx, "crawl", "DhtCrawlTrace.tla", "DhtCrawlTrace.cfg", crawls, "trace_crawl_" + tag)
+    ok2 = validate_traces(ctx, "limiter", "DhtNodeTrace.tla", "DhtNodeTrace.cfg", pairs, "trace_limiter_" + tag)
+    st = dict(net.stats, nodes=n, wall_s=round(wall, 1), crawl_traces=len(crawls), pair_traces=len(pairs),
+              crawl_events=sum(len(c["events"]) for c in crawls), pair_events=sum(len(c["events"]) for c in pairs),
+              budget_exhausted=sum(1 for c in crawls if len(c["events"][-1]["s"].get("tried", [])) >= 24))
+    ctx.note("network_" + tag, st)
+    if crawls:
+        ctx.sample({"recorded_crawl_first_events": crawls[0]["events"][:2]})
+    return crawls, pairs, ok1 and ok2, st
+
+
+def trace_controls(ctx, pool, crawls, pairs):
+    import copy
+    rej = lambda what, t: pool.submit(validate_traces, ctx, what, "Dht%sTrace.tla" % ("Crawl" if what == "crawl" else "Node"),   # noqa: E731
+                                      "Dht%sTrace.cfg" % ("Crawl" if what == "crawl" else "Node"), [t], "ctl", True)
+    # (1) one logged candidate list altered
+    bad1 = None
+    for c in crawls:
+        for i, e in enumerate(c["events"]):
+            if e["a"] == "Drain" and e["chk"] and len(e["s"]["todo"]) >= 2:
+                bad1 = copy.deepcopy(c)
+                td = bad1["events"][i]["s"]["todo"]
+                td[0], td[1] = td[1], td[0]
+                break
+        if bad1:
+            break
+    if bad1 is None:
+        raise MachineryError("no recorded crawl with two candidates to corrupt")
+    # (2) one time-out removed from a crawl
+    bad2 = None
+    for c in crawls:
+        idx = [i for i, e in enumerate(c["events"]) if e["a"] == "Expire"]
+        if idx:
+            bad2 = copy.deepcopy(c)
+            del bad2["events"][idx[0]]
+            break
+    if bad2 is None:
+        raise MachineryError("no recorded crawl with a time-out")
+    # (3) an eleventh request answered inside the window / a refusal below the limit / the documented boundary
+    burst = {"server": 0, "client": 1, "events": [{"a": "q", "out": "served"} for _ in range(11)]}
+    early = {"server": 0, "client": 1, "events": [{"a": "q", "out": "served"}, {"a": "t", "d": 1000},
+                                                   {"a": "q", "out": "refused"}]}
+    exact = {"server": 0, "client": 1, "events": [{"a": "q", "out": "served"} for _ in range(10)] +
+             [{"a": "t", "d": 4999999}, {"a": "q", "out": "refused"}, {"a": "t", "d": 1}, {"a": "q", "out": "served"}]}
+    f = [rej("crawl", bad1), rej("crawl", bad2), rej("limiter", burst), rej("limiter", early), rej("limiter", exact)]
+    ctx.control("crawl trace with two candidates swapped is rejected", f[0].result())
+    ctx.control("crawl trace with one time-out removed is rejected", f[1].result())
+    ctx.control("limiter trace with 11 requests answered at one instant is rejected", f[2].result())
+    ctx.control("limiter trace with a refusal below the limit is rejected", f[3].result())
+    if f[4].result():
+        raise MachineryError("the limiter trace specification rejects the documented boundary behaviour")
+
+
+# ---------------------------------------------------------------------------------------------------------------------
+# observation (not a verdict): a requester that does not fit in the routing table is never limited
+# ---------------------------------------------------------------------------------------------------------------------
+def observe_unadmitted(ctx):
+    from ipv8.dht.payload import PingRequestPayload, PingResponsePayload
+    from ipv8.dht.routing import Node as DhtNode
+    from ipv8.keyvault.crypto import default_eccrypto
+    from ..g02_world import NodeWorld, own_node_id
+    w = node_world()
+    ov = w.fresh_server()
+    my = ov.get_my_node_id(w.puppet.my_peer)
+    mybit = my[0] >> 7
+    cbit = own_node_id(w.puppet.address, w.pk)[0] >> 7
+    # fill the half of the identifier space the server does NOT live in with 8 other nodes, then talk from a ninth
+    fillers = 0
+    tries = 0
+    want_bit = 1 - mybit
+    if cbit != want_bit:
+        ctx.note("observation_unadmitted", {"skipped": "the puppet's identifier lies in the server's own half"})
+        return
+    table = ov.get_routing_table(DhtNode(w.pk, w.puppet.address))
+    while fillers < 8 and tries < 4000:
+        tries += 1
+        pk = default_eccrypto.generate_key("curve25519").pub().key_to_bin()
+        addr = ("81.%d.%d.%d" % (tries // 65536 % 256, tries // 256 % 256, tries % 256), 8090)
+        if own_node_id(addr, pk)[0] >> 7 == want_bit and table.add(DhtNode(pk, addr)) is not None:
+            fillers += 1
+    answered = 0
+    for k in range(30):
+        data = w.pov.ezr_pack(PingRequestPayload.msg_id, PingRequestPayload(90000 + k))
+        w.net.deliver(w.net.inject(w.puppet.address, w.server_addr, data))
+        w.loop.settle()
+        while w.net.inflight:
+            dg = w.net.inflight.popleft()
+            answered += 1 if dg.data[22] == PingResponsePayload.msg_id else 0
+    held = table.get(own_node_id(w.puppet.address, w.pk)) is not None
+    ctx.note("observation_unadmitted", {
+        "what": "30 pings at one instant from a node whose bucket is full (8 nodes, not splittable)", "held": held,
+        "answered": answered, "limit": 10,
+        "reading": "the limiter state lives in the routing-table entry; a requester that is not admitted is never limited "
+                   "(allowed: N1 is stated for held nodes; reported as an observation)"})
+
+
 def run(tier, seed, replay=None):
     setup_repo_path()
+    from concurrent.futures import ThreadPoolExecutor
     ctx = Ctx(PID, tier, seed, "model_checking")
+    ctx.cov["rule"] = ("crawl: TLC explores every interleaving of answers / time-outs / loop drains of generated worlds, every "
+                       "edge of the state graph is executed on a real DHTCommunity (puppet peers with real keys) and the "
+                       "projected Crawl state, the requests on the wire, the result and the caching store are compared; "
+                       "-simulate behaviours with the shipped constants likewise; routing-table entry: graph + simulate "
+                       "replay of queries, introductions, take_step, answers, lookups and clock jumps; find over 0..2 routing "
+                       "tables x debug flag: every TLC state is one real call; real networks: recorded crawls and per-pair "
+                       "request histories validated by TLC. non-trivial = distinct replayed walks / recorded traces")
+    ctx.assumptions += ["signature primitives of the key vault are trusted (puppet answers are really signed)",
+                        "closeness ranks are computed by the harness with its own XOR arithmetic on crc32(ip)+sha1(key)",
+                        "requests sent in one loop iteration time out microseconds apart; the specification lets an "
+                        "answer slip in between (superset of the real schedules)"]
     rng = random.Random(seed)
-    small = dict(MaxInit=2, MaxReq=4, MaxTasks=2)
-    stats = []
-    #print(replay_world_graphs(ctx, rng, "small", 6, small, 4, ["values", "nodes"], 8))
-    #print(replay_simulated(ctx, rng, "shipped", 30, {}, 8, 30, 250))
-    print(replay_find(ctx))
-    print(replay_node_graph(ctx, "DhtNodeMC.tla", "DhtNode_t5.cfg", 5, "t5", max_ops=800))
-    print(replay_node_graph(ctx, "DhtNodeMC.tla", "DhtNode_t1.cfg", 1, "t1", max_ops=2000, expect=NODE_ACTIONS + ["Lookup"]))
-    print(replay_node_sim(ctx, "DhtNode.tla", "DhtNode_sim1.cfg", 1, "sim1", 100, 80))
-    print(replay_node_sim(ctx, "DhtNode.tla", "DhtNode_limit10.cfg", 1, "limit10", 100, 80))
-    vloop.uninstall()
+    quick = tier == "quick"
+    pool = ThreadPoolExecutor(max_workers=8)
+    try:
+        # ---- model checking of the specifications themselves (in the background) + spec-level negative controls
+        jobs = {
+            "crawl_mc": pool.submit(tlc, "DhtCrawlMC.tla", "DhtCrawl_mc.cfg" if quick else "DhtCrawl_mc4.cfg",
+                                    deadlock_off=False, workers=6 if quick else 12, timeout=3000),
+            "crawl_live": pool.submit(tlc, "DhtCrawlMC.tla", "DhtCrawl_live.cfg", deadlock_off=False, workers=2),
+            "node_mc": pool.submit(tlc, "DhtNode.tla", "DhtNode_mc.cfg", workers=2),
+            "node_churn": pool.submit(tlc, "DhtNode.tla", "DhtNode_churn.cfg", workers=2),
+        }
+        if not quick:
+            jobs["node_limit10"] = pool.submit(tlc, "DhtNode.tla", "DhtNode_limit10.cfg", workers=4)
+        ctl = {
+            "crawl: add_response without the nodes_tried check violates InvNoRepeat":
+                (pool.submit(tlc, "DhtCrawlMC.tla", "DhtCrawl_ctl_tried.cfg", coverage=False, workers=2), "InvNoRepeat"),
+            "crawl: add_response without re-sorting violates InvClosestFirst":
+                (pool.submit(tlc, "DhtCrawlMC.tla", "DhtCrawl_ctl_sort.cfg", coverage=False, workers=2), "InvClosestFirst"),
+            "crawl: caching at the most recent responder violates InvCache":
+                (pool.submit(tlc, "DhtCrawlMC.tla", "DhtCrawl_ctl_cache.cfg", coverage=False, workers=2), "InvCache"),
+            "crawl: a budget that counts responses violates InvBudget":
+                (pool.submit(tlc, "DhtCrawlMC.tla", "DhtCrawl_ctl_budget.cfg", coverage=False, workers=2), "InvBudget"),
+            "node: remembering refused queries violates InvRefuse":
+                (pool.submit(tlc, "DhtNode.tla", "DhtNode_ctl_refused.cfg", coverage=False, workers=2), "InvRefuse"),
+            "node: a requester that is never admitted violates InvWindow":
+                (pool.submit(tlc, "DhtNode.tla", "DhtNode_ctl_admit.cfg", coverage=False, workers=2), "InvWindow"),
+            "node: an answer that does not reset the failure counter violates InvStatus":
+                (pool.submit(tlc, "DhtNode.tla", "DhtNode_ctl_reset.cfg", coverage=False, workers=2), "InvStatus"),
+            "node: take_step without bad-node removal violates InvChurn":
+                (pool.submit(tlc, "DhtNode.tla", "DhtNode_ctl_remove.cfg", coverage=False, workers=2), "InvChurn"),
+            "find: the pinned star-argument merge violates InvFindAll (proposed_fixes/G02-1.diff)":
+                (pool.submit(tlc, "DhtFind.tla", "DhtFind_pinned.cfg", coverage=False, workers=1), "InvFindAll"),
+        }
+
+        lap(ctx, "start")
+        small = dict(MaxInit=2, MaxReq=4, MaxTasks=2)
+        mid = dict(MaxInit=3, MaxReq=6, MaxTasks=3)
+        sim_n = 40 if quick else 400
+        preps = {}
+        if quick:
+            preps["g_small"] = prep_world_graphs(rng, "small", 6, small, 4, ["values", "nodes"], 8)
+            preps["s_shipped"] = prep_simulated(rng, seed, "shipped", 30, {}, 8, 25, 250)
+        else:
+            preps["g_small"] = prep_world_graphs(rng, "small", 6, small, 4, ["values", "nodes"], 24)
+            preps["g_mid"] = prep_world_graphs(rng, "mid", 8, mid, 5, ["values", "nodes"], 3)
+            preps["g_shipped10"] = prep_world_graphs(rng, "shipped10", 10, {}, 6, ["values"], 1)
+            preps["s_shipped"] = prep_simulated(rng, seed, "shipped", 30, {}, 8, 200, 250)
+            preps["s_shipped60"] = prep_simulated(rng, seed, "shipped60", 60, {}, 8, 100, 250, nworlds=4)
+        preps["find"] = prep_find()
+        preps["n_t5"] = prep_node_graph("DhtNodeMC.tla", "DhtNode_t5.cfg")
+        preps["n_t1"] = prep_node_graph("DhtNodeMC.tla", "DhtNode_t1.cfg")
+        preps["n_sim1"] = prep_node_sim("DhtNode.tla", "DhtNode_sim1.cfg", seed, sim_n, 80)
+        preps["n_limit10"] = prep_node_sim("DhtNode.tla", "DhtNode_limit10.cfg", seed, sim_n, 80)
+        for pz in preps.values():
+            pz["future"] = pool.submit(pz["job"])
+        # ---- binding R: crawl
+        if quick:
+            replay_world_graphs(ctx, preps["g_small"], max_ops=6000)
+            replay_simulated(ctx, preps["s_shipped"])
+        else:
+            replay_world_graphs(ctx, preps["g_small"])
+            replay_world_graphs(ctx, preps["g_mid"], max_ops=120000)
+            replay_world_graphs(ctx, preps["g_shipped10"], max_ops=60000)
+            replay_simulated(ctx, preps["s_shipped"])
+            replay_simulated(ctx, preps["s_shipped60"])
+        lap(ctx, "crawl_replay")
+        # ---- find over several routing tables
+        replay_find(ctx, preps["find"])
+        lap(ctx, "find_replay")
+        # ---- binding R: one routing-table entry
+        replay_node_graph(ctx, preps["n_t5"], 5, "t5", max_ops=4000 if quick else None)
+        replay_node_graph(ctx, preps["n_t1"], 1, "t1", max_ops=4000 if quick else 150000, expect=NODE_ACTIONS + ["Lookup"])
+        replay_node_sim(ctx, preps["n_sim1"], 1, "sim1")
+        replay_node_sim(ctx, preps["n_limit10"], 1, "limit10")
+        observe_unadmitted(ctx)
+        lap(ctx, "node_replay")
+        # ---- binding T: real networks
+        crawls, pairs, ok, _st = network_part(ctx, seed, "n24", 24)
+        if not quick:
+            network_part(ctx, seed + 1000, "n16", 16, loss=0.0, kill=0, lookups=40)
+            network_part(ctx, seed + 2000, "n40", 40, loss=0.08, kill=8, lookups=60, duration=200.0)
+            network_part(ctx, seed + 3000, "n32", 32, loss=0.02, kill=4, lookups=50, strategy_period=0.5, duration=90.0)
+        lap(ctx, "networks")
+        if ok:
+            trace_controls(ctx, pool, crawls, pairs)
+        lap(ctx, "trace_controls")
+
+        # ---- collect the background runs
+        for name, fut in jobs.items():
+            r = fut.result()
+            if not r.ok:
+                raise MachineryError("%s: TLC reports %s on the specification itself" % (name, r.violated))
+            need_coverage(r, CRAWL_ACTIONS if name.startswith("crawl") else
+                          (["Query", "Tick"] if name == "node_limit10" else NODE_ACTIONS + ["Lookup"]), name)
+            ctx.add_tlc(name, r)
+        for name, (fut, inv) in ctl.items():
+            r = fut.result()
+            ctx.control(name, r.violated == inv)
+        lap(ctx, "background_tlc")
+        ctx.cov["exhaustive"] = True
+    finally:
+        pool.shutdown(wait=False, cancel_futures=True)
+        vloop.uninstall()
     return ctx.finish()
